@@ -1645,6 +1645,10 @@ def Mandatory(cls, **_kwargs):
     elif issubclass(cls, Array):
         (k,v), = cls._type_info.items()
         if v.Attributes.min_occurs == 0:
-            cls._type_info[k] = Mandatory(v)
+            # customize first: the member type of the array that was passed in
+            # is not ours to change
+            retval = cls.customize(**kwargs)
+            retval._type_info[k] = Mandatory(v)
+            return retval
 
     return cls.customize(**kwargs)
